@@ -401,6 +401,17 @@ class MetaHook(type):
         return '<class %s>' % cls.__name__
 
 
+class FalsyMeta(type):
+    """Classes that are FALSY objects (a metaclass with __len__ / __bool__, e.g. an 'empty' enum-like or registry-like class):
+    `if not cls` is not the same question as `if cls is None`."""
+
+    def __len__(cls):
+        return 0
+
+    def __bool__(cls):
+        return False
+
+
 class MetaHashHook(MetaHook):
     """Additionally makes hashing the CLASS a scenario callback: a hook that raises there models a class that is not
     hashable (metaclass with __eq__ and no __hash__) -- the engine keys classes by address, the Python-side table by hash."""
